@@ -180,12 +180,12 @@ pub fn run(ctx: &Ctx) -> i32 {
         let entries = gen::gen_entries(rng, KeyShape::K3, ValShape::Tiny, 150);
         check_file(ctx, "levels", idx, &format!("levels/{}", levels), &cfg, &entries, rng, n_ops, &maxes);
     });
-    let n = ctx.n(4000, 30_000);
+    let n = ctx.n(4000, 120_000);
     ctx.par("random", n, true, |idx, rng| {
         let (entries, cfg, shape) = gen::gen_file_case(rng, 50_000);
         check_file(ctx, "random", idx, &format!("random/{:?}", shape), &cfg, &entries, rng, n_ops, &maxes);
     });
-    let n = ctx.n(1500, 12_000);
+    let n = ctx.n(1500, 50_000);
     ctx.par("deep", n, true, |idx, rng| {
         let levels = *rng.pick(&[2u8, 2, 3, 3, 4, 7, 16]);
         let cnt = rng.range(20, 160);
